@@ -182,6 +182,50 @@ def boc_part(R, S, rng, quick):
             R.case(mon.fp('bocg', mut))
 
 
+def boc_header_product(R, S, rng, quick):
+    """headers assembled field by field (not derived from a valid bag): every combination of flag bits, size / offset widths incl. 0 and out-of-range ones,
+    cell / root / absent counts incl. huge ones, total size, followed by a little filler.  Whatever the parser makes of them, its work is bounded by the input length."""
+    import itertools
+    from pytoniq_core.boc import Cell
+    flags_l = [0x00, 0x80, 0x40, 0xC0, 0xA0, 0xE0, 0x20, 0x18]
+    sizes = [0, 1, 2, 3, 4, 7]
+    offs = [0, 1, 2, 4, 8, 9, 255]
+    counts = ['0', '1', '2', 'big', 'max']
+    combos = list(itertools.product(flags_l, sizes, offs, counts, ['0', '1', '2', 'max'], ['0', '1'], ['0', 'small', 'max']))
+    if quick:
+        combos = rng.sample(combos, 2500)
+    elif R.nshards > 1:
+        combos = combos[R.shard::R.nshards]
+
+    def num(kind, width):
+        top = (1 << (8 * width)) - 1 if width else 0
+        return {'0': 0, '1': min(1, top), '2': min(2, top), 'big': min(500000, top), 'max': top, 'small': min(11, top)}[kind]
+    for flags, size, off, cells, roots, absent, tot in combos:
+        w = size & 7
+        hdr = bytes.fromhex('b5ee9c72') + bytes([flags | w, off])
+        try:
+            hdr += num(cells, w).to_bytes(w, 'big') + num(roots, w).to_bytes(w, 'big') + num(absent, w).to_bytes(w, 'big') + num(tot, min(off, 8)).to_bytes(min(off, 8), 'big')
+        except OverflowError:
+            continue
+        for filler in (b'', bytes(rng.randrange(1, 40)), rng.randbytes(rng.randrange(1, 60))):
+            data = hdr + filler
+            S.run('boc-header-product', 'from_boc', len(data), lambda: Cell.from_boc(data),
+                  {'flags': flags, 'size': size, 'off_bytes': off, 'cells': cells, 'roots': roots, 'absent': absent, 'tot_cells_size': tot, 'boc': data})
+            R.case(mon.fp('bochp', data))
+        R.cover('boc_header_off_bytes', off)
+        R.cover('boc_header_size', size)
+    # the two lean magics: size byte, offset byte, then counts
+    for magic in ('68ff65f3', 'acc3a728'):
+        for size, off, cells in itertools.product([0, 1, 2, 4, 7], [0, 1, 2, 8, 255], ['0', '1', 'big', 'max']):
+            w = size & 7
+            hdr = bytes.fromhex(magic) + bytes([size, off]) + num(cells, w).to_bytes(w, 'big') + num('1', w).to_bytes(w, 'big') + num('0', w).to_bytes(w, 'big')
+            hdr += num('small', min(off, 8)).to_bytes(min(off, 8), 'big')
+            for filler in (b'', rng.randbytes(rng.randrange(1, 60))):
+                data = hdr + filler
+                S.run('boc-header-product', 'from_boc', len(data), lambda: Cell.from_boc(data), {'magic': magic, 'size': size, 'off_bytes': off, 'cells': cells, 'boc': data})
+                R.case(mon.fp('bochp', data))
+
+
 # ------------------------------------------------------------------------------------------- TL parser
 def tl_part(R, S, rng, quick):
     from pytoniq_core.tl.generator import TlGenerator
@@ -240,6 +284,20 @@ def tl_part(R, S, rng, quick):
             payload = custom.little_id() + tl_bytes(payload)
         S.run('tl-nested-bytes', 'TlSchemas.deserialize', len(payload), lambda: schemas.deserialize(payload), {'levels': levels, 'len': len(payload)})
         R.case(mon.fp('tlnest', levels))
+    # nesting where every level packs several objects into its bytes field and the nesting continues inside the first / the last / every one of them
+    leaf = custom.little_id() + tl_bytes(b'leaf-obj')
+    for where in ('first', 'last', 'both'):
+        for levels in ([1, 4, 12, 24] if quick else [1, 2, 4, 8, 12, 16, 24, 40, 80]):
+            if where == 'both' and levels > 8:
+                continue        # two nested objects per level: the input itself doubles per level
+            payload = leaf
+            for _ in range(levels):
+                inner = {'first': payload + leaf, 'last': leaf + payload, 'both': payload + payload}[where]
+                payload = custom.little_id() + tl_bytes(inner)
+            if len(payload) > 200000:
+                continue
+            S.run('tl-nested-object-lists', 'TlSchemas.deserialize', len(payload), lambda: schemas.deserialize(payload), {'levels': levels, 'nested_in': where, 'len': len(payload)})
+            R.case(mon.fp('tlnestlist', where, levels))
     # bytes field holding k concatenated objects (the re-parse loop), and k objects followed by garbage
     for k in ([1, 8, 64, 400] if quick else [1, 2, 8, 32, 64, 128, 400, 1000, 3000]):
         inner = (custom.little_id() + tl_bytes(b'x' * 8)) * k
@@ -341,7 +399,7 @@ def run(R):
               f'{A} + {B}*s^2 logical steps, s = distinct cells + references for DAG operations (build/hash, order, to_boc x options, from_boc, copy ...), input bytes '
               f'for the BoC and TL parsers, unfolded cells for dictionary parsers; additionally the fitted growth exponent per (family, operation) must be <= '
               f'{EXPONENT_LIMIT}. Families: chains, random DAGs, wide trees, 2- and 4-way ladders (exponential path count), diamonds, k-ary trees; BoC headers with every '
-              'count/size field rewritten; TL vectors with rewritten counts, nested bytes-in-bytes, object lists in bytes, rewritten bytes lengths, random bytes '
+              'count/size field rewritten and headers assembled as the product of flag/width/count values (incl. zero widths and huge counts); TL object lists nested inside object lists; TL vectors with rewritten counts, nested bytes-in-bytes, object lists in bytes, rewritten bytes lengths, random bytes '
               'after valid ids; canonical, shared-subtree and fuzzed dictionaries. distinct = distinct (family, parameter/input); non-trivial = all')
     R.assumptions = ['"terminates" is decided as bounded progress in logical steps (LINE events of repository code), not wall-clock',
                      'work inside C extensions (bitarray, hashlib) is not counted', 'Cell.__str__ (tree dump, output itself exponential on DAGs) is not measured']
@@ -351,6 +409,7 @@ def run(R):
             if R.nshards > 1 and i % R.nshards != R.shard:
                 continue
             part(R, S, rng, quick)
+        boc_header_product(R, S, rng, quick)          # every shard takes its slice of the product
         ex = S.exponents()
         R.extra['growth_exponents'] = ex
         R.extra['steps_tables'] = {k: sorted(set(v))[:12] for k, v in S.table.items() if len(v) < 60 or k.startswith(('chain', 'ladder', 'tl-nested', 'dict-canonical'))}
@@ -360,6 +419,8 @@ def run(R):
         R.floor('exponents_fitted', 8)
         R.floor('calls_tl-vector-count', 50)
         R.floor('calls_ladder2', 20)
+        R.floor('calls_boc-header-product', 2000)
+        R.floor('calls_tl-nested-object-lists', 8)
 
 
 def replay(R, w, rec):
